@@ -2,6 +2,7 @@ package checks
 
 import (
 	"fmt"
+	"os"
 	"strings"
 	"testing"
 
@@ -483,6 +484,15 @@ func TestC14Positions(t *testing.T) {
 		{Stmt: &lib.Stmt{Kind: "select", Star: true, Where: lib.Call("upper", lib.Key())}, Mutant: true, Fault: "non-boolean-where"},
 		{Stmt: &lib.Stmt{Kind: "delete", Where: lib.Call("strlen", lib.Key())}, Mutant: true, Fault: "non-boolean-where"},
 		{Stmt: &lib.Stmt{Kind: "select", Star: true, Where: lib.Call("nosuchfn", lib.Key())}, Mutant: true, Fault: "unknown-function"},
+		// aggregate functions exist in select fields only: anywhere else they
+		// are unknown functions, also when reached through a field name
+		{Stmt: &lib.Stmt{Kind: "select", Star: true, Where: lib.Bin(">", lib.Call("count", lib.Int(1)), lib.Int(0))}, Mutant: true, Fault: "aggregate-in-where"},
+		{Stmt: &lib.Stmt{Kind: "delete", Where: lib.Bin(">", lib.Call("sum", lib.Call("strlen", lib.Key())), lib.Int(0))}, Mutant: true, Fault: "aggregate-in-delete-where"},
+		{Stmt: &lib.Stmt{Kind: "select", Fields: []lib.SelField{{E: lib.Call("count", lib.Int(1)), Alias: "c"}}, Where: lib.Bin(">", lib.Ref("c", lib.TyInt), lib.Int(1))}, Mutant: true, Fault: "named-aggregate-in-where"},
+		{Stmt: &lib.Stmt{Kind: "select", Fields: []lib.SelField{{E: lib.Key(), Alias: "g1"}, {E: lib.Call("sum", lib.Int(1)), Alias: "s"}}, Where: lib.Not(lib.Bin(">", lib.Ref("s", lib.TyInt), lib.Int(1))), Group: []string{"g1"}}, Mutant: true, Fault: "named-aggregate-under-!-in-where"},
+		{Stmt: &lib.Stmt{Kind: "select", Fields: []lib.SelField{{E: lib.Key()}, {E: lib.Call("max", lib.Call("strlen", lib.Value())), Alias: "m"}}, Where: lib.Bin("&", lib.In(lib.Key(), lib.Str("a"), lib.Str("b")), lib.Between(lib.Ref("m", lib.TyInt), lib.Int(1), lib.Int(5))), Group: []string{"key"}}, Mutant: true, Fault: "named-aggregate-in-between-in-where"},
+		{Stmt: &lib.Stmt{Kind: "select", Fields: []lib.SelField{{E: lib.Call("count", lib.Int(1)), Alias: "c"}}, Where: lib.Bin("=", lib.Call("str", lib.Bin("+", lib.Ref("c", lib.TyInt), lib.Int(1))), lib.Str("2"))}, Mutant: true, Fault: "named-aggregate-in-argument-in-where"},
+		{Stmt: &lib.Stmt{Kind: "put", Pairs: [][2]*lib.Node{{lib.Str("k"), lib.Call("str", lib.Call("count", lib.Int(1)))}}}, Mutant: true, Fault: "aggregate-in-put"},
 	}
 	for _, c := range forms {
 		idx++
@@ -495,5 +505,124 @@ func TestC14Positions(t *testing.T) {
 		if msg != "" {
 			fail(t, "C14", "c14", msg, c)
 		}
+	}
+}
+
+// ---- operator x operand-type matrix -------------------------------------------
+
+type c14MatrixCase struct {
+	E     *lib.Node `json:"e"`
+	Where bool      `json:"where"` // place E as the WHERE clause instead of a select field
+	Query string    `json:"query"`
+}
+
+func init() {
+	registerReplay("c14matrix", func(c *c14MatrixCase) string { m, _ := checkC14Matrix(c); return m })
+}
+
+var c14MatrixPairs = []lib.Pair{{K: "a", V: "1"}, {K: "ab", V: "2"}, {K: "b", V: "3.5"}}
+
+// checkC14Matrix: whatever the typing rules say about `X op Y`, the verdict
+// must come when the plan is built. Rejected: no storage call before the
+// rejection. Accepted: execution over numeric-text values never fails with an
+// operand-type error.
+func checkC14Matrix(c *c14MatrixCase) (msg string, accepted bool) {
+	st := &lib.Stmt{Kind: "select", Fields: []lib.SelField{{E: lib.Key()}, {E: c.E}}, Where: lib.Bin("!=", lib.Key(), lib.Str(""))}
+	if c.Where {
+		st = &lib.Stmt{Kind: "select", Star: true, Where: c.E}
+	}
+	q := st.Render()
+	c.Query = q
+	for _, cfg := range []lib.Cfg{{Mode: "row", Batch: 32, Cache: true}, {Mode: "batch", Batch: 2, Cache: true}} {
+		in := lib.NewInstr(lib.NewStore(c14MatrixPairs))
+		res := lib.Build(q, in, cfg)
+		if res.Panic != "" {
+			return fmt.Sprintf("planning %q panicked: %s", q, res.Panic), true
+		}
+		if res.BuildErr != nil {
+			if n := len(in.Calls()); n != 0 {
+				return fmt.Sprintf("statement %q is rejected (%v) but only after %d storage calls: %v", q, res.BuildErr, n, in.Calls()), false
+			}
+			continue
+		}
+		accepted = true
+		lib.Drain(res, cfg, 64)
+		if res.Panic != "" {
+			return fmt.Sprintf("executing %q [%s] panicked: %s", q, cfg, res.Panic), true
+		}
+		if res.ExecErr != nil && isOperandTypeError(res.ExecErr) {
+			return fmt.Sprintf("statement %q is accepted when the plan is built but fails at run time [%s] with an operand-type error: %v (storage calls before the failure: %d)", q, cfg, res.ExecErr, len(in.Calls())), true
+		}
+	}
+	return "", accepted
+}
+
+// TestC14Matrix: every operator over every pair of operand forms of every
+// static type, as a select field and (when it can be Boolean) as the WHERE.
+func TestC14Matrix(t *testing.T) {
+	lib.Stats.Exhaustive = true
+	type operand struct {
+		ty string
+		mk func() *lib.Node
+	}
+	ops := []operand{
+		{"text", func() *lib.Node { return lib.Str("a") }},
+		{"text", func() *lib.Node { return lib.Key() }},
+		{"text", func() *lib.Node { return lib.Value() }},
+		{"text", func() *lib.Node { return lib.Call("upper", lib.Key()) }},
+		{"int", func() *lib.Node { return lib.Int(1) }},
+		{"int", func() *lib.Node { return lib.Call("strlen", lib.Key()) }},
+		{"int", func() *lib.Node { return lib.Bin("+", lib.Int(1), lib.Int(2)) }},
+		{"float", func() *lib.Node { return lib.Float("1.5") }},
+		{"float", func() *lib.Node { return lib.Call("float", lib.Value()) }},
+		{"bool", func() *lib.Node { return lib.Bool(true) }},
+		{"bool", func() *lib.Node { return lib.Bin("=", lib.Key(), lib.Str("a")) }},
+		{"bool", func() *lib.Node { return lib.Call("is_int", lib.Value()) }},
+		{"bool", func() *lib.Node { return lib.Not(lib.Bin("^=", lib.Key(), lib.Str("a"))) }},
+		{"list", func() *lib.Node { return lib.Call("split", lib.Value(), lib.Str(",")) }},
+		{"list", func() *lib.Node { return lib.Call("list", lib.Int(1), lib.Int(2)) }},
+	}
+	binops := []string{"=", "!=", "<", "<=", ">", ">=", "^=", "~=", "+", "-", "*", "/", "&", "|", "and", "or"}
+	idx := 0
+	emit := func(e *lib.Node, label string) {
+		for _, where := range []bool{false, true} {
+			idx++
+			if !lib.Mine(idx) {
+				continue
+			}
+			c := &c14MatrixCase{E: e.Clone(), Where: where}
+			lib.Journal("C14", "c14matrix", c)
+			msg, acc := checkC14Matrix(c)
+			verdict := "rejected"
+			if acc {
+				verdict = "accepted"
+			}
+			lib.Stats.EnumCase(true, []string{"matrix", "matrix-" + verdict, "matrix-" + label}, func() any { return map[string]any{"matrix": c.Query, "verdict": verdict} })
+			if msg != "" {
+				if os.Getenv("VERIF_MATRIX_ALL") != "" {
+					fmt.Println("MATRIX:", msg)
+					continue
+				}
+				fail(t, "C14", "c14matrix", msg, c)
+			}
+		}
+	}
+	for _, l := range ops {
+		for _, r := range ops {
+			for _, op := range binops {
+				emit(lib.Bin(op, l.mk(), r.mk()), l.ty+op+r.ty)
+			}
+			// IN over a literal list, over a list value; BETWEEN
+			emit(lib.In(l.mk(), r.mk(), r.mk()), l.ty+" in ("+r.ty+")")
+			if r.ty == "list" {
+				emit(lib.InList(l.mk(), r.mk()), l.ty+" in list")
+			}
+			for _, h := range ops {
+				if h.ty == r.ty || (h.ty != "list" && r.ty != "list" && (idx%3 == 0)) {
+					emit(lib.Between(l.mk(), r.mk(), h.mk()), l.ty+" between "+r.ty+" and "+h.ty)
+				}
+			}
+		}
+		emit(lib.Not(l.mk()), "!"+l.ty)
 	}
 }
